@@ -535,24 +535,62 @@ def r3_r4(run: Run, rt):
                           fact='0-based position + 1', loc=cp.loc(r))
         if pos_rets < 2:
             raise AnalysisError('C17.R3', f'_search: {pos_rets} position-returning paths found, expected at least 2')
-        # matches before the start are skipped: pos0 + 1 < start
-        skips = [n for n in ast.walk(fn) if isinstance(n, ast.If) and any(isinstance(s, ast.Continue) for s in n.body)]
-        ok_skip = False
-        for sk in skips:
-            t = sk.test
-            if isinstance(t, ast.Compare) and len(t.ops) == 1:
-                diff = _affine2(ast.BinOp(left=_posify(t.left), op=ast.Sub(), right=_posify(t.comparators[0])), {start: 's', '__P__': 'p'})
-                if diff is not None:
-                    coef, c0 = diff
-                    # p + c0 - s < 0  (skip when the 1-based position p + 1 is before s)  <=>  c0 = 1 with <, c0 = 0 with <=
-                    if coef == {'p': 1, 's': -1}:
-                        ok_skip = (isinstance(t.ops[0], ast.Lt) and c0 == 1) or (isinstance(t.ops[0], ast.LtE) and c0 == 0)
-                        run.check(ok_skip, 'C17.R3', f'_search[{cp.label}]/skip-before-start', 'skip-condition',
-                                  f'matches are skipped when `{ast.unparse(t)}`; a match AT the start position must be kept '
-                                  f'(skip only while 0-based position + 1 < start)', fact='skip iff position + 1 < start', loc=cp.loc(t))
-        if not skips:
-            # acceptable alternative: the regex search is given a start offset (pattern.search(text, pos))
+        # which matches are skipped / selected: a match at 0-based position P is skipped exactly when P + 1 < start.  The test may
+        # be a skip test (`if ..: continue`), a selection test (`if ..: found = m; break`) or the filter of a generator handed to
+        # next(); it is evaluated on a grid of integer (P, start) pairs
+        import operator as _o
+
+        def ev_int(e, env):
+            if isinstance(e, ast.Name):
+                if e.id in env:
+                    return env[e.id]
+                raise Unmodelled(f'name {e.id}')
+            if isinstance(e, ast.Constant) and isinstance(e.value, int):
+                return e.value
+            if isinstance(e, ast.UnaryOp) and isinstance(e.op, ast.Not):
+                return not ev_int(e.operand, env)
+            if isinstance(e, ast.UnaryOp) and isinstance(e.op, ast.USub):
+                return -ev_int(e.operand, env)
+            if isinstance(e, ast.BinOp) and isinstance(e.op, (ast.Add, ast.Sub)):
+                a, b = ev_int(e.left, env), ev_int(e.right, env)
+                return a + b if isinstance(e.op, ast.Add) else a - b
+            if isinstance(e, ast.BoolOp):
+                vals = [ev_int(v, env) for v in e.values]
+                return all(vals) if isinstance(e.op, ast.And) else any(vals)
+            if isinstance(e, ast.Compare) and len(e.ops) == 1:
+                table = {ast.Lt: _o.lt, ast.LtE: _o.le, ast.Gt: _o.gt, ast.GtE: _o.ge, ast.Eq: _o.eq, ast.NotEq: _o.ne}
+                if type(e.ops[0]) in table:
+                    return table[type(e.ops[0])](ev_int(e.left, env), ev_int(e.comparators[0], env))
+            raise Unmodelled(ast.unparse(e)[:40])
+        tests = []          # (test expression, 'skip' | 'select')
+        for n in ast.walk(fn):
+            if isinstance(n, ast.If) and '__P__' in ast.unparse(_posify(n.test)) and start in {x.id for x in ast.walk(n.test) if isinstance(x, ast.Name)}:
+                if any(isinstance(b, ast.Continue) for b in n.body):
+                    tests.append((n.test, 'skip'))
+                elif any(isinstance(b, ast.Break) for b in n.body) or any(isinstance(b, ast.Return) for b in n.body):
+                    tests.append((n.test, 'select'))
+            if isinstance(n, (ast.GeneratorExp, ast.ListComp)) and len(n.generators) == 1 and len(n.generators[0].ifs) == 1:
+                t = n.generators[0].ifs[0]
+                if '__P__' in ast.unparse(_posify(t)) and start in {x.id for x in ast.walk(t) if isinstance(x, ast.Name)}:
+                    tests.append((t, 'select'))
+        if not tests:
             raise AnalysisError('C17.R3', '_search: the wildcard path does not skip matches before the start in a modelled form')
+        for t, kind in tests:
+            pt = _posify(t)
+            bad_pt = None
+            try:
+                for P in range(0, 4):
+                    for sv in range(1, 6):
+                        got = bool(ev_int(pt, {'__P__': P, start: sv}))
+                        skip = got if kind == 'skip' else not got
+                        if skip != (P + 1 < sv):
+                            bad_pt = bad_pt or (P, sv, skip)
+            except Unmodelled as u:
+                raise AnalysisError('C17.R3', f'_search: unmodelled test `{ast.unparse(t)[:60]}` ({u})')
+            run.check(bad_pt is None, 'C17.R3', f'_search[{cp.label}]/skip-before-start', 'skip-condition',
+                      f'with `{ast.unparse(t)[:60]}` a match at 1-based position {bad_pt[0] + 1 if bad_pt else ""} and start '
+                      f'{bad_pt[1] if bad_pt else ""} is {"skipped" if bad_pt and bad_pt[2] else "kept"}; a match is skipped exactly when '
+                      f'its position is before the start', fact='skip iff position + 1 < start', loc=cp.loc(t))
         # R4: the text to find reaches the regex without re.escape
         esc = any(isinstance(c, ast.Call) and ast.unparse(c.func) == 're.escape' for c in ast.walk(fn))
         re_sites = [c for k, c, _, _ in sites if k == 're']
